@@ -349,4 +349,11 @@ theorem gen_wrapping_pow_eq (bits L a e : ℕ) :
     Ruint.Gen.val_wrapping_pow (e + 1) bits L a e = wrappingPow bits a e :=
   Ruint.GenValue.wrapping_pow_eq bits L a e
 
+theorem gen_checked_saturating_pow_eq (bits L a e : ℕ) :
+    Ruint.Gen.val_checked_pow (e + 1) bits L a e = checkedPow bits a e
+    ∧ Ruint.Gen.val_saturating_pow (e + 1) bits L a e = saturatingPow bits a e
+    ∧ Ruint.Gen.val_pow (e + 1) bits L a e = Pow.pow bits a e :=
+  ⟨Ruint.GenValue.checked_pow_eq bits L a e, Ruint.GenValue.saturating_pow_eq bits L a e,
+   Ruint.GenValue.pow_eq bits L a e⟩
+
 end Ruint.C13
